@@ -312,8 +312,9 @@ type Session struct {
 	Root string
 	Log  []Op
 
-	// Schedule answers, for the i-th foreground gate point (0-based; mutating operations, plus reads
-	// of tmp.data when GateReads is set, plus lock acquisitions reported by qsync), how many
+	// Schedule answers, for the i-th foreground gate point (0-based; mutating operations, acquisitions
+	// of the write-ahead file's lock reported by qsync, explicit GatePoints; a read — when GateReads
+	// is set — is a gate point that carries the index of the next counted point), how many
 	// operations the background may perform before the foreground continues. nil = Unlimited always
 	// ("the background drains immediately").
 	Schedule func(fgIdx int, what string) int
@@ -339,6 +340,8 @@ type Session struct {
 	bgOnLock    int  // background goroutines waiting for a qsync lock the foreground holds
 	outstanding int  // records handed to the writer that it has not reported done (from qsync)
 	seenBG      map[int64]bool
+	dead        map[int64]bool // goroutines of an instance that was shut down (NewInstance): they never run again
+	pendingGen  int64          // generation of the pending-record count (one per store instance)
 
 	BgPanic string // a background goroutine of the store panicked (recovered by the harness's spawn hook)
 	Broken  string // the gate's real-time cap was hit: from here on nobody waits
@@ -349,7 +352,7 @@ type Session struct {
 	Timeouts     int
 	LockWaitsBG  int // times the background waited for a lock held by the foreground
 	LockWaitsFG  int // times the foreground waited for a lock held by the background
-	OtherFgGoids int
+	Reads        int // foreground reads that were gate points
 }
 
 var (
@@ -371,7 +374,7 @@ func Begin(dir string) *Session {
 	if err != nil {
 		panic(err)
 	}
-	s := &Session{Root: filepath.Clean(abs), fg: Goid(), on: true, seenBG: map[int64]bool{}, Cap: 20 * time.Second}
+	s := &Session{Root: filepath.Clean(abs), fg: Goid(), on: true, seenBG: map[int64]bool{}, dead: map[int64]bool{}, Cap: 20 * time.Second}
 	s.cond = sync.NewCond(&s.mu)
 	activeMu.Lock()
 	if active != nil {
@@ -460,6 +463,7 @@ func (s *Session) do(op *Op, run func() bool) {
 		op.Class = 'F'
 		s.fgGate(op.Kind + " " + op.Path)
 	} else {
+		s.buryIfDead(g)
 		op.Class = 'B'
 		s.bgGate(g)
 	}
@@ -508,7 +512,13 @@ func (s *Session) stable() bool {
 // Called with s.mu held; returns with s.mu held.
 func (s *Session) fgGate(what string) {
 	idx := s.fgIdx
-	s.fgIdx++
+	if strings.HasPrefix(what, "read ") {
+		// reads are gate points but do not count: how many there are depends on whether a record is
+		// still served from the pending index, which the bookkeeping goroutine decides on its own time
+		s.Reads++
+	} else {
+		s.fgIdx++
+	}
 	if s.NoGate {
 		return
 	}
@@ -568,10 +578,16 @@ func (s *Session) bgGate(g int64) {
 	s.seenBG[g] = true
 	s.bgAtGate++
 	s.cond.Broadcast()
-	for s.on && s.Broken == "" && !(s.free || (s.fgWaiting && s.perm != 0)) {
+	for s.on && s.Broken == "" && !s.dead[g] && !(s.free || (s.fgWaiting && s.perm != 0)) {
 		s.cond.Wait()
 	}
 	s.bgAtGate--
+	if s.dead[g] {
+		// its instance was shut down while it was parked here
+		s.cond.Broadcast()
+		s.mu.Unlock()
+		select {}
+	}
 	if s.free {
 		s.FreeMoves++
 	} else if s.fgWaiting {
@@ -600,6 +616,38 @@ func (s *Session) Drain() bool {
 	s.free = false
 	s.perm = 0
 	return s.BgPanic == "" && s.Broken == ""
+}
+
+// NewInstance tells the session that the store instance in use so far has been shut down (a clean
+// process exit as far as the store is concerned) and that the foreground is about to open the
+// directory again: every background goroutine seen so far belongs to the old process and never runs
+// again (it parks forever at its next operation or lock), and the count of pending records starts
+// from zero for the new instance.
+func (s *Session) NewInstance() {
+	s.mu.Lock()
+	for g := range s.seenBG {
+		s.dead[g] = true
+	}
+	s.pendingGen++
+	s.outstanding = 0
+	s.bgOnLock = 0
+	s.cond.Broadcast()
+	s.mu.Unlock()
+}
+
+// PendingGen is the generation a lock of the pending index records when it is first used.
+func (s *Session) PendingGen() int64 {
+	s.mu.Lock()
+	defer s.mu.Unlock()
+	return s.pendingGen
+}
+
+// buryIfDead parks a goroutine of a shut-down instance forever. Called with s.mu held.
+func (s *Session) buryIfDead(g int64) {
+	if s.dead[g] {
+		s.mu.Unlock()
+		select {}
+	}
 }
 
 // GatePoint is a foreground gate point without an operation (e.g. "the foreground is idle between
@@ -641,17 +689,30 @@ func (s *Session) NotePanic(msg string) {
 // entry points for qsync (locks and the pending index of the write-ahead queue)
 
 // Delivered / Completed: a record entered / left the queue's pending index.
-func (s *Session) Delivered() {
+func (s *Session) Delivered(gen int64) {
 	s.mu.Lock()
-	s.outstanding++
+	s.note(Goid())
+	if gen == s.pendingGen {
+		s.outstanding++
+	}
 	s.mu.Unlock()
 }
 
-func (s *Session) Completed() {
+func (s *Session) Completed(gen int64) {
 	s.mu.Lock()
-	s.outstanding--
-	s.cond.Broadcast()
+	s.note(Goid())
+	if gen == s.pendingGen {
+		s.outstanding--
+		s.cond.Broadcast()
+	}
 	s.mu.Unlock()
+}
+
+// note remembers a background goroutine. s.mu held.
+func (s *Session) note(g int64) {
+	if g != s.fg {
+		s.seenBG[g] = true
+	}
 }
 
 // LockOwner values.
@@ -665,8 +726,10 @@ const (
 // background) holds it for writing, and how many read holds the foreground has. Contention inside
 // one party is left to the real mutex behind it. The fields only change under the session's lock.
 type LockState struct {
-	Writer    int32
-	FgReaders int32
+	Writer     int32
+	FgReaders  int32
+	BgWaiters  int32 // background goroutines counted as "waiting for a lock the foreground holds" here
+	ReleaseSeq int64 // incremented when the foreground's release uncounts them
 }
 
 // Acquire arbitrates a lock between the two parties so that "the background waits for a lock the
@@ -705,6 +768,11 @@ func (s *Session) Acquire(l *LockState, write bool, gatePoint bool) {
 		}
 		return
 	}
+	if s.dead[g] {
+		s.mu.Unlock() // the deferred Unlock never runs: this goroutine never returns
+		select {}
+	}
+	s.note(g)
 	blocked := func() bool {
 		if write {
 			return l.Writer == OwnerFG || l.FgReaders > 0
@@ -714,11 +782,23 @@ func (s *Session) Acquire(l *LockState, write bool, gatePoint bool) {
 	if blocked() {
 		s.LockWaitsBG++
 		s.bgOnLock++
+		l.BgWaiters++
+		seq := l.ReleaseSeq
 		s.cond.Broadcast()
-		for blocked() && s.on {
+		for blocked() && s.on && !s.dead[g] {
 			s.cond.Wait()
 		}
-		s.bgOnLock--
+		if s.dead[g] {
+			// its instance was shut down meanwhile (NewInstance has reset bgOnLock)
+			s.mu.Unlock() // the deferred Unlock never runs
+			select {}
+		}
+		if l.ReleaseSeq == seq {
+			// (otherwise the foreground's release has uncounted this waiter already: from that
+			// moment on it is a running goroutine again, not one that waits for the foreground)
+			s.bgOnLock--
+			l.BgWaiters--
+		}
 	}
 	if write {
 		l.Writer = OwnerBG
@@ -736,6 +816,16 @@ func (s *Session) Release(l *LockState, write bool) {
 			}
 		} else if l.FgReaders > 0 {
 			l.FgReaders--
+		}
+		if l.Writer == OwnerNone && l.FgReaders == 0 && l.BgWaiters > 0 {
+			// whoever waited for this lock can run again NOW, not when it happens to wake up: the
+			// foreground's next gate point must wait for it
+			s.bgOnLock -= int(l.BgWaiters)
+			if s.bgOnLock < 0 {
+				s.bgOnLock = 0
+			}
+			l.BgWaiters = 0
+			l.ReleaseSeq++
 		}
 	} else if write && l.Writer == OwnerBG {
 		l.Writer = OwnerNone
